@@ -15,7 +15,7 @@ SOURCES = ('basic', 'compound', 'orthogonal')
 
 class St:
     __slots__ = ('name', 'kind', 'parent', 'children', 'initial', 'memory', 'entry_sends', 'exit_sends',
-                 'pre', 'post', 'inv', 'bump_entry', 'bump_exit')
+                 'pre', 'post', 'inv', 'bump_entry', 'bump_exit', 'tobs', 'tinv')
 
     def __init__(self, name, kind, parent):
         self.name = name
@@ -31,16 +31,18 @@ class St:
         self.inv = []
         self.bump_entry = False  # entry code modifies context variable v
         self.bump_exit = False
+        self.tobs = False       # code logs the `time` variable it sees
+        self.tinv = []          # time-aware invariants: (cond id, after arg or None, idle arg or None)
 
     def as_tuple(self):
         return (self.name, self.kind, self.parent, tuple(self.children), self.initial, self.memory,
                 tuple(self.entry_sends), tuple(self.exit_sends), tuple(self.pre), tuple(self.post),
-                tuple(self.inv), self.bump_entry, self.bump_exit)
+                tuple(self.inv), self.bump_entry, self.bump_exit, self.tobs, tuple(self.tinv))
 
 
 class Tr:
     __slots__ = ('i', 'src', 'tgt', 'event', 'prio', 'guard', 'sends', 'pre', 'post', 'inv', 'bump',
-                 'tg_after', 'tg_idle')
+                 'tg_after', 'tg_idle', 'tobs')
 
     def __init__(self, i, src, tgt, event, prio, guard):
         self.i = i
@@ -56,10 +58,11 @@ class Tr:
         self.bump = False
         self.tg_after = None     # time-aware guard: after(d) argument or None
         self.tg_idle = None
+        self.tobs = False
 
     def as_tuple(self):
         return (self.i, self.src, self.tgt, self.event, self.prio, self.guard, tuple(self.sends),
-                tuple(self.pre), tuple(self.post), tuple(self.inv), self.bump, self.tg_after, self.tg_idle)
+                tuple(self.pre), tuple(self.post), tuple(self.inv), self.bump, self.tg_after, self.tg_idle, self.tobs)
 
 
 class Spec:
@@ -178,6 +181,7 @@ class Cfg:
         self.contracts = False
         self.bump = False         # code modifies context variable v
         self.time_guards = False
+        self.time_obs = False     # code logs `time`; states carry time-aware invariants
         self.force_history = False
         self.pair_bias = 0        # out of 8: probability that a new transition copies source/event of an earlier one
         self.root_orthogonal = True
@@ -214,7 +218,7 @@ def gen_spec(st, cfg):
     def grow(n, depth):
         s = sp.states[n]
         if s.kind == 'compound':
-            nkids = st.int(1, 3)
+            nkids = st.int(2 if cfg.force_history else 1, 3)
             for _ in range(nkids):
                 if budget[0] <= 0 and s.children:
                     break
@@ -288,6 +292,28 @@ def gen_spec(st, cfg):
         prio = st.pick([0, 0, 0, 1, -1, 2, -2]) if cfg.priorities else 0
         tr = Tr(len(sp.trans), s, t, ev, prio, guard)
         sp.trans.append(tr)
+    if cfg.force_history:
+        # gadgets: moves inside the history parent, a way out and a way back in through the history state
+        for h in hist_names:
+            if not st.flag(3, 4):
+                continue
+            p = sp.states[h].parent
+            kids = [c for c in sp.states[p].children if sp.kind(c) in SOURCES]
+            allkids = [c for c in sp.states[p].children if sp.kind(c) not in HIST]
+            outside = [n for n in names if n != p and n not in sp.desc(p) and p not in sp.anc(n) or n in sp.anc(p)]
+            outside = [n for n in names if n != p and n not in sp.desc(p)]
+
+            def add(s, t):
+                if s is not None and t is not None and legal_transition(sp, s, t):
+                    sp.trans.append(Tr(len(sp.trans), s, t, st.pick(events), 0, st.flag(1, 4)))
+            if kids and len(allkids) >= 2:
+                a = st.pick(kids)
+                add(a, st.pick([c for c in allkids if c != a]))
+            out_t = st.pick(outside) if outside else None
+            add(st.pick([p] + kids) if kids else p, out_t)
+            srcs_out = [n for n in outside if sp.kind(n) in SOURCES]
+            if srcs_out:
+                add(st.pick(srcs_out), h)
     decorate(sp, st, cfg, events)
     return sp
 
@@ -340,6 +366,14 @@ def decorate(sp, st, cfg, events):
                     t.tg_after = st.pick([0, 1, 2, 3, 0.5])
                 if st.flag(2, 3):
                     t.tg_idle = st.pick([0, 1, 2, 3, 0.5])
+    if cfg.time_obs:
+        for s in sp.states.values():
+            s.tobs = True
+            if s.kind not in HIST and st.flag(1, 2):
+                s.tinv.append((sp.nconds, st.pick([None, 0, 1, 2, 0.5]), st.pick([None, 0, 1, 2, 0.5])))
+                sp.nconds += 1
+        for t in sp.trans:
+            t.tobs = True
     if cfg.contracts:
         def conds(k):
             out = []
@@ -367,6 +401,8 @@ def _sends_code(sends):
 
 def entry_code(s):
     lines = ['P.entry(%r)' % s.name]
+    if s.tobs:
+        lines.append('P.obs(%r, time)' % ('entry:' + s.name))
     if s.bump_entry:
         lines.append('v = v + 1')
     return '\n'.join(lines + _sends_code(s.entry_sends))
@@ -374,6 +410,8 @@ def entry_code(s):
 
 def exit_code(s):
     lines = ['P.exit(%r)' % s.name]
+    if s.tobs:
+        lines.append('P.obs(%r, time)' % ('exit:' + s.name))
     if s.bump_exit:
         lines.append('v = v + 2')
     return '\n'.join(lines + _sends_code(s.exit_sends))
@@ -381,6 +419,8 @@ def exit_code(s):
 
 def action_code(t):
     lines = ['P.act(%d, event)' % t.i]
+    if t.tobs:
+        lines.append('P.obs(%r, time)' % ('act:%d' % t.i))
     if t.bump:
         lines.append('v = v + 3')
     return '\n'.join(lines + _sends_code(t.sends))
@@ -395,6 +435,11 @@ def guard_code(t):
             'after(%r)' % t.tg_after if t.tg_after is not None else 'None',
             'idle(%r)' % t.tg_idle if t.tg_idle is not None else 'None')
     return 'P.guard(%d, event)' % t.i
+
+
+def tinv_code(j, a, i):
+    return 'P.tcond(%d, %s, %s, time)' % (j, 'after(%r)' % a if a is not None else 'None',
+                                          'idle(%r)' % i if i is not None else 'None')
 
 
 def cond_code(j, kind, owner_is_transition, with_old):
@@ -431,6 +476,7 @@ def _state_obj(model, s, with_old=True):
     o.preconditions.extend(cond_code(j, 'pre', False, with_old) for j in s.pre)
     o.postconditions.extend(cond_code(j, 'post', False, with_old) for j in s.post)
     o.invariants.extend(cond_code(j, 'inv', False, with_old) for j in s.inv)
+    o.invariants.extend(tinv_code(j, a, i) for j, a, i in s.tinv)
     return o
 
 
@@ -476,6 +522,8 @@ def to_dict(sp, order=None, name='gen'):
         out += [{'before': cond_code(j, 'pre', is_t, True)} for j in o.pre]
         out += [{'after': cond_code(j, 'post', is_t, True)} for j in o.post]
         out += [{'always': cond_code(j, 'inv', is_t, True)} for j in o.inv]
+        if not is_t:
+            out += [{'always': tinv_code(j, a, i)} for j, a, i in o.tinv]
         return out
 
     def st(n):
